@@ -35,6 +35,9 @@ func init() {
 func runC11(c *Ctx) {
 	if a := findReload(c, "ORDER"); a != nil {
 		ruleKeepOld(c, a, "ORDER")
+		// every listener a generation serves was acquired through its own listener set, which is what stopping the generation
+		// releases: a handle taken from the manager directly is never closed and keeps competing for the address
+		ruleBind(c, a)
 	}
 	ms := findMultiListeners(c, "REFCOUNT")
 	c.Floor("REFCOUNT", "shared-listener types with an Acquire method", len(ms), 2)
